@@ -34,8 +34,9 @@ End Full.
 Definition sort_messages_order_insensitive : Prop := forall l l',
   (forall x y, In x l -> In y l -> e_ctx x = e_ctx y) -> Permutation l l' -> sort_messages l = sort_messages l'.
 
-(* Every set that reaches a cache record is written through a sort.  REFUTED for build.deps_to_json
-   (Properties.deps_to_json_refuted). *)
-Definition deps_json_enumeration_independent : Prop := forall write_str write_int (enum enum' : list name),
+(* Every set that reaches a cache record is written through a sort; for build.deps_to_json this depends on the flag
+   regenerated from the source (refuted before fix 6f793e2, proved since: Properties.deps_to_json_perm_invariant). *)
+Definition deps_json_enumeration_independent (sorted_flag : bool) : Prop :=
+  forall write_str write_int (enum enum' : list name),
   Permutation enum enum' -> NoDup enum ->
-  deps_targets_write write_str write_int enum = deps_targets_write write_str write_int enum'.
+  deps_targets_write write_str write_int sorted_flag enum = deps_targets_write write_str write_int sorted_flag enum'.
